@@ -49,6 +49,12 @@ var c10NameSets = [][]string{
 	{"a\u007fb", "a\u0080b", "a\u0081b", "\u0080", "\u07ffx"},
 	{"\u0800", "\ud7ff", "\ue000", "\uffff", "\U00010000"},
 	{"\U0010ffff.x", "\u00ff", "\u0100", "x\u007f", "\u0080\u0080"},
+	// legitimate single-component names that look like something else to a careless check: dots in a row, a leading dot,
+	// a trailing dot, a drive-letter look-alike, a tilde, a leading dash
+	{"notes..txt", "..profile", "v1..2.bin", "...", "a.."},
+	{".hidden", "trailing.", "C:name", "~", "-rf"},
+	// names that differ only by a blank at either end: trimming turns one into the other
+	{"report ", "report", " report", "report  ", "rep ort"},
 }
 
 func c10WriteDir(c *c10Case, r *core.Rec) {
